@@ -1,7 +1,7 @@
 (* Property C08 — held links deliver nothing until released, then everything
    exactly once in order.  Statements only; proofs in C08_proofs.v. *)
 From TV.Lib Require Import Base.
-From TV.Link Require Import Model Facts Topo_proofs Topo_run C03_topo C08_proofs C08_topo.
+From TV.Link Require Import Model Facts Topo_proofs Topo_run C03_topo C08_proofs C08_topo C08_topo_held.
 Open Scope N_scope.
 
 (* A message that is parked (status OnHold in `sent`, in no ready queue) is in
@@ -92,6 +92,21 @@ Theorem c08_topology_mass : forall es t x,
   (tmass x (tlinks (tstate t es)) + cnt x (touts t es) <= tmass x (tlinks t) + cnt x (tsend_ids es))%nat.
 Proof. exact touts_mass. Qed.
 
+(* Held, hence not delivered, on the whole topology: a message sent between two
+   hosts while the projected history of their pair has the link held is handed
+   to NO host for as long as that pair sees no release / manual delivery --
+   whatever happens on this link otherwise and on all other links. *)
+Theorem c08_topology_held_not_delivered : forall t es1 src dst id x p es2,
+  let q := pair_of src dst in
+  let d := dir_of src dst in
+  let l1 := fin (run (tg t) init (proj q es1)) in
+  fresh_topo t -> Forall no_reg (es1 ++ TSend src dst id x false p :: es2) ->
+  state_of l1 d = Held -> good_states l1 ->
+  Forall no_release (proj q es2) ->
+  ~ In id (tsend_ids es1) -> ~ In id (tsend_ids es2) ->
+  ~ In id (touts t (es1 ++ TSend src dst id x false p :: es2)).
+Proof. exact c08_topology_held_not_delivered_lemma. Qed.
+
 (* Non-vacuity: a held message is not delivered during the hold and is
    delivered exactly once after release. *)
 Definition g0 := {| lmin := 0; lmax := 5 * ms |}.
@@ -121,4 +136,5 @@ Print Assumptions c08_links_view.
 Print Assumptions c08_unheld_links_untouched.
 Print Assumptions c08_topology_at_most_once.
 Print Assumptions c08_topology_mass.
+Print Assumptions c08_topology_held_not_delivered.
 Print Assumptions c08_nonvacuous.
